@@ -13,3 +13,39 @@ def downstream (k c value error : α) : α × α :=
     (.bin .add (.bin .mul (.const k) (.var 0)) (.const c))
 
 end QExPy.Stats
+
+/-! ### two repeated measurements in one later calculation
+
+`DerivativeEvaluator.__evaluate` reads the uncertainty IN USE of every source in the quadrature
+terms and `__find_cov_terms` rebuilds the covariance of a pair from the recorded correlation factor
+and, again, the two uncertainties in use.  The formulas below are the trees Python builds for
+`k1*a + k2*b + c`, `a - b`, `a * b`, `a / b`. -/
+
+namespace QExPy.Stats
+variable {α : Type} [Num α]
+
+inductive Shape2 where
+  | lin | sub | prod | quot
+  deriving DecidableEq, Repr, Inhabited
+
+def Shape2.all : List Shape2 := [.lin, .sub, .prod, .quot]
+def Shape2.name : Shape2 → String
+  | .lin => "lin" | .sub => "sub" | .prod => "prod" | .quot => "quot"
+def Shape2.ofName? (s : String) : Option Shape2 := Shape2.all.find? (·.name == s)
+
+/-- the formula tree over `a = var 0`, `b = var 1` -/
+def expr2 (s : Shape2) (k1 k2 c : α) : Expr α :=
+  match s with
+  | .lin => .bin .add (.bin .add (.bin .mul (.const k1) (.var 0)) (.bin .mul (.const k2) (.var 1)))
+              (.const c)
+  | .sub => .bin .sub (.var 0) (.var 1)
+  | .prod => .bin .mul (.var 0) (.var 1)
+  | .quot => .bin .div (.var 0) (.var 1)
+
+/-- value and uncertainty of the formula when `a` currently has `va ± ea`, `b` has `vb ± eb` and the
+    recorded correlation factor of the pair is `rho` -/
+def downstream2 (s : Shape2) (k1 k2 c va ea vb eb rho : α) : α × α :=
+  Expr.propagate (fun i => if i = 0 then va else vb) (fun i => if i = 0 then ea else eb)
+    (fun _ _ => rho) (expr2 s k1 k2 c)
+
+end QExPy.Stats
